@@ -645,6 +645,21 @@ def flat_via_queue(case):
 
 
 # ------------------------------------------------------------------ implementation side
+def _grouped(world, acts):
+    """world.batch_removals (coordinator's C05 stream): a run of consecutive remove_model actions is handed over as ONE
+    action [1, [m1, m2, ...]] -> one call remove_model([...]) (same effect: exactly their pending events go)"""
+    if not getattr(world, 'batch_removals', False):
+        return list(acts)
+    out = []
+    for a in acts:
+        if a[0] == 1 and out and out[-1][0] == 1:
+            prev = out[-1][1] if isinstance(out[-1][1], list) else [out[-1][1]]
+            out[-1] = [1, prev + [a[1]]]
+        else:
+            out.append(list(a))
+    return out
+
+
 class CWorld(flat.World):
     """recorders for sync and async classes (same item format as flat.World).  They hand the item whose callback
     is performing to perform/aperform.  Async: plain functions; a recorder that has to call back into the machine
@@ -680,11 +695,11 @@ class CWorld(flat.World):
             item = [SLOT[slot], cb, mid, world.state_of(model), arg, opt(err), bool(ret), [list(a) for a in acts]]
             world.items.append(item)
             if acts and not world.is_async:
-                for a in acts:
+                for a in _grouped(world, acts):
                     world.perform(a, item)
             elif acts:
                 async def later():
-                    for a in acts:
+                    for a in _grouped(world, acts):
                         await world.aperform(a, item)
                     if exn is not None:
                         raise make_exc(exn)
@@ -860,6 +875,19 @@ def run_queue_on(case, cls, flags, backend, queued=True):
                     if early and om is not None and flat.state_int(om) != before:
                         st['stale'] = True      # the outer event's source is no longer the model's state
                 st['nested'].append(bool(r))
+            else:
+                remove(a, item, cur)
+
+        def remove(a, item, cur):
+            if isinstance(a[1], list):
+                for _ in a[1][1:]:
+                    st['act_k'][cur] = st['act_k'].get(cur, 0) + 1      # one action number per removal, as unbatched
+                group = []
+                for j in a[1]:
+                    if models[j] in machine.models and not any(models[j] is g for g in group):
+                        group.append(models[j])
+                if group:
+                    machine.remove_model(group if len(group) > 1 else group[0])
             elif models[a[1]] in machine.models:
                 machine.remove_model(models[a[1]])
 
@@ -872,10 +900,11 @@ def run_queue_on(case, cls, flags, backend, queued=True):
                     st['nested'].append(False)
                     raise
                 st['nested'].append(bool(r))
-            elif models[a[1]] in machine.models:
-                machine.remove_model(models[a[1]])
+            else:
+                remove(a, item, cur)
         world.perform = perform
         world.aperform = aperform
+        world.batch_removals = bool(case.get('batch_removals'))
         out, free = [], 1
         for (m, e, a) in case['history']:
             world.items = []
